@@ -67,7 +67,7 @@ class Driver:
     def build_xlsx(self, spec, stored, overrides=None, name='book.xlsx', cycles=None,
                    strict=True):
         from pycel import ExcelCompiler
-        if strict and any('f' in c and stored.get(c['a']) in (None, '') for c in spec['cells']):
+        if strict and any('f' in c and wbgen.unstorable(stored.get(c['a'])) for c in spec['cells']):
             # a formula whose result is empty (=A1:A3 over a blank cell), the empty text (which
             # openpyxl reads back as no value at all) or unknown: a file
             # written by Excel would carry a cached value for it, ours would not while the
